@@ -29,6 +29,10 @@ func Begin(what func() interface{}) {
 	current.Store(&curCase{curSeq, what})
 }
 
+// End marks the end of the unit of work: nothing is current (a worker that then waits for a sub-process, or idles
+// for any other reason of its own, is not a blocked library call).
+func End() { current.Store(nil) }
+
 func cpuSeconds() float64 {
 	var ru syscall.Rusage
 	syscall.Getrusage(syscall.RUSAGE_SELF, &ru)
